@@ -95,6 +95,7 @@ type eg struct {
 	cand  int      // stream bytes per candidate
 	qrP   *big.Int // residue groups: modulus and subgroup order, for the independent membership test
 	qrQ   *big.Int
+	light bool // expensive group: one run per case, no repetitions
 }
 
 // receiver histories: the point Embed/Pick/Hash writes into
@@ -538,56 +539,62 @@ func (c *ctx) embedOracle(e eg, data []byte, pick bool, buf []byte, class string
 	for i := res.used; i < len(buf2) && i < res.used+256; i++ {
 		buf2[i] ^= 0x5a
 	}
-	res2 := res
-	if c.calls%2 == 0 || len(data) <= 64 && e.name != "ed25519vartime-pkg" {
-		res2, _, _ = runEmbed(e, data, pick, buf2, recv)
+	if e.light {
+		goto lossless
 	}
-	if !res2.ok || !bytes.Equal(res2.pt, res.pt) || res2.used != res.used {
-		in["second"] = vh.Hex(res2.pt)
-		rep.Fail(e.name+"."+op+"/not-a-function-of-consumed-bytes", "a second run on a stream with the same consumed prefix gave another point or consumption", in)
-	}
-	// ... nor is the previous content of the receiver
-	other := 0
-	if recv == 0 {
-		other = 1 + c.calls%(len(recvKinds)-1)
-	}
-	res3, _, _ := runEmbed(e, data, pick, buf, other)
-	if !res3.ok || !bytes.Equal(res3.pt, res.pt) || res3.used != res.used || !bytes.Equal(res3.dat, res.dat) || res3.datErr != res.datErr {
-		in["other_receiver"], in["other_point"] = recvKinds[other], vh.Hex(res3.pt)
-		rep.Fail(e.name+"."+op+"/depends-on-receiver", "the result depends on what the receiver held before the call", in)
-	}
-	// a stream object used for two calls in a row: the second call continues where the first stopped
-	if c.calls%4 == 0 {
-		t := &tape{buf: buf}
-		var Pa, Pb kyber.Point
-		pan, _ := vh.Try(func() {
-			Pa, Pb = e.point(), e.point()
-			if pick {
-				Pa.Pick(t)
-				Pb.Pick(t)
-			} else {
-				Pa.Embed(data, t)
-				Pb.Embed(data, t)
+	{
+		res2 := res
+		if c.calls%2 == 0 || len(data) <= 64 && e.name != "ed25519vartime-pkg" {
+			res2, _, _ = runEmbed(e, data, pick, buf2, recv)
+		}
+		if !res2.ok || !bytes.Equal(res2.pt, res.pt) || res2.used != res.used {
+			in["second"] = vh.Hex(res2.pt)
+			rep.Fail(e.name+"."+op+"/not-a-function-of-consumed-bytes", "a second run on a stream with the same consumed prefix gave another point or consumption", in)
+		}
+		// ... nor is the previous content of the receiver
+		other := 0
+		if recv == 0 {
+			other = 1 + c.calls%(len(recvKinds)-1)
+		}
+		res3, _, _ := runEmbed(e, data, pick, buf, other)
+		if !res3.ok || !bytes.Equal(res3.pt, res.pt) || res3.used != res.used || !bytes.Equal(res3.dat, res.dat) || res3.datErr != res.datErr {
+			in["other_receiver"], in["other_point"] = recvKinds[other], vh.Hex(res3.pt)
+			rep.Fail(e.name+"."+op+"/depends-on-receiver", "the result depends on what the receiver held before the call", in)
+		}
+		// a stream object used for two calls in a row: the second call continues where the first stopped
+		if c.calls%4 == 0 {
+			t := &tape{buf: buf}
+			var Pa, Pb kyber.Point
+			pan, _ := vh.Try(func() {
+				Pa, Pb = e.point(), e.point()
+				if pick {
+					Pa.Pick(t)
+					Pb.Pick(t)
+				} else {
+					Pa.Embed(data, t)
+					Pb.Embed(data, t)
+				}
+			})
+			resb, _, _ := runEmbed(e, data, pick, buf[res.used:], 0)
+			if pan || !resb.ok || !bytes.Equal(enc(Pa), res.pt) || !bytes.Equal(enc(Pb), resb.pt) || t.pos != res.used+resb.used {
+				rep.Fail(e.name+"."+op+"/stream-reuse-differs", "two calls on one stream object differ from the calls on the split stream", in)
 			}
-		})
-		resb, _, _ := runEmbed(e, data, pick, buf[res.used:], 0)
-		if pan || !resb.ok || !bytes.Equal(enc(Pa), res.pt) || !bytes.Equal(enc(Pb), resb.pt) || t.pos != res.used+resb.used {
-			rep.Fail(e.name+"."+op+"/stream-reuse-differs", "two calls on one stream object differ from the calls on the split stream", in)
+			rep.Dist("receiver:stream-reused")
 		}
-		rep.Dist("receiver:stream-reused")
-	}
-	// Data() is stable: second call, clone, and it does not change the encoding
-	if !res.noData {
-		if res.datAgainE != res.datErr || !bytes.Equal(res.datAgain, res.dat) {
-			rep.Fail(e.name+".Data/second-call-differs", "Data() called twice gave two answers", in)
-		}
-		if res.datCloneE != res.datErr || !bytes.Equal(res.datClone, res.dat) {
-			rep.Fail(e.name+".Data/clone-differs", "Data() of a Clone differs", in)
-		}
-		if !bytes.Equal(res.encAfter, res.pt) {
-			rep.Fail(e.name+".Data/changes-encoding", "the encoding of the point changed by calling Data()", in)
+		// Data() is stable: second call, clone, and it does not change the encoding
+		if !res.noData {
+			if res.datAgainE != res.datErr || !bytes.Equal(res.datAgain, res.dat) {
+				rep.Fail(e.name+".Data/second-call-differs", "Data() called twice gave two answers", in)
+			}
+			if res.datCloneE != res.datErr || !bytes.Equal(res.datClone, res.dat) {
+				rep.Fail(e.name+".Data/clone-differs", "Data() of a Clone differs", in)
+			}
+			if !bytes.Equal(res.encAfter, res.pt) {
+				rep.Fail(e.name+".Data/changes-encoding", "the encoding of the point changed by calling Data()", in)
+			}
 		}
 	}
+lossless:
 	// lossless
 	if data != nil {
 		el := e.point().EmbedLen()
@@ -700,11 +707,54 @@ type hgroup struct {
 // hashRecv selects the history of the receiver the hash-to-group functions write into.
 var hashRecv int
 
-func hp(g kyber.Group, P kyber.Point) kyber.Point {
-	if hashRecv%len(recvKinds) != 0 {
-		dirty(eg{name: "", g: g, cand: 32}, P, hashRecv)
+// further histories for hash-to-group: the receiver is itself the result of a hash, a clone
+// of one, or was the receiver of an Add after being one
+var hashKinds = []string{"hash-result", "clone-of-hash-result", "add-into-hash-result"}
+
+func hashKindName(k int) string {
+	if k < len(recvKinds) {
+		return recvKinds[k]
 	}
-	return P
+	return hashKinds[(k-len(recvKinds))%len(hashKinds)]
+}
+
+func callAnyHash(P kyber.Point, m []byte) kyber.Point {
+	switch h := P.(type) {
+	case interface{ Hash([]byte) kyber.Point }:
+		return h.Hash(m)
+	case interface {
+		Hash([]byte, string) kyber.Point
+	}:
+		return h.Hash(m, "an earlier tag")
+	case interface {
+		Hash2(msg, dst []byte) kyber.Point
+	}:
+		return h.Hash2(m, []byte("an earlier tag"))
+	}
+	return nil
+}
+
+func hp(g kyber.Group, P kyber.Point) kyber.Point {
+	k := hashRecv
+	if k == 0 {
+		return P
+	}
+	if k < len(recvKinds) {
+		dirty(eg{name: "", g: g, cand: 32}, P, k)
+		return P
+	}
+	var Q kyber.Point
+	vh.Try(func() { Q = callAnyHash(P, []byte("an earlier message")) })
+	if Q == nil {
+		return P
+	}
+	switch hashKindName(k) {
+	case "clone-of-hash-result":
+		Q = Q.Clone()
+	case "add-into-hash-result":
+		vh.Try(func() { Q.Add(Q, g.Point().Base()) })
+	}
+	return Q
 }
 
 func hashGroups() []hgroup {
@@ -718,30 +768,30 @@ func hashGroups() []hgroup {
 		Hash2(msg, dst []byte) kyber.Point
 	}
 	hs := []hgroup{
-		{eg{"ed25519", ed, false, "ed", 32, nil, nil}, true, func(m, d []byte) kyber.Point {
+		{eg{"ed25519", ed, false, "ed", 32, nil, nil, false}, true, func(m, d []byte) kyber.Point {
 			return hp(ed, ed.Point()).(interface {
 				Hash([]byte, string) kyber.Point
 			}).Hash(m, string(d))
 		}},
-		{eg{"bn256.G1", b256.G1(), false, "bn256", 32, nil, nil}, false, func(m, d []byte) kyber.Point { return hp(b256.G1(), b256.G1().Point()).(h1).Hash(m) }},
-		{eg{"bn256.G1/HashG1", b256.G1(), false, "bn256", 32, nil, nil}, true, func(m, d []byte) kyber.Point { return bn256.HashG1(m, d) }},
-		{eg{"bn254.G1", bn254.NewSuite().G1(), false, "", 32, nil, nil}, true, func(m, d []byte) kyber.Point {
+		{eg{"bn256.G1", b256.G1(), false, "bn256", 32, nil, nil, false}, false, func(m, d []byte) kyber.Point { return hp(b256.G1(), b256.G1().Point()).(h1).Hash(m) }},
+		{eg{"bn256.G1/HashG1", b256.G1(), false, "bn256", 32, nil, nil, false}, true, func(m, d []byte) kyber.Point { return bn256.HashG1(m, d) }},
+		{eg{"bn254.G1", bn254.NewSuite().G1(), false, "", 32, nil, nil, false}, true, func(m, d []byte) kyber.Point {
 			s := bn254.NewSuite()
 			s.SetDomainG1(d)
 			return hp(s.G1(), s.G1().Point()).(h1).Hash(m)
 		}},
-		{eg{"kilic.G1", ki.G1(), false, "", 32, nil, nil}, true, func(m, d []byte) kyber.Point {
+		{eg{"kilic.G1", ki.G1(), false, "", 32, nil, nil, false}, true, func(m, d []byte) kyber.Point {
 			ks := kilic.NewBLS12381SuiteWithDST(d, d)
 			return hp(ks.G1(), ks.G1().Point()).(h1).Hash(m)
 		}},
-		{eg{"kilic.G2", ki.G2(), false, "", 32, nil, nil}, true, func(m, d []byte) kyber.Point {
+		{eg{"kilic.G2", ki.G2(), false, "", 32, nil, nil, false}, true, func(m, d []byte) kyber.Point {
 			ks := kilic.NewBLS12381SuiteWithDST(d, d)
 			return hp(ks.G2(), ks.G2().Point()).(h1).Hash(m)
 		}},
-		{eg{"circl.G1", ci.G1(), false, "", 32, nil, nil}, true, func(m, d []byte) kyber.Point { return hp(ci.G1(), ci.G1().Point()).(h2).Hash2(m, d) }},
-		{eg{"circl.G2", ci.G2(), false, "", 32, nil, nil}, true, func(m, d []byte) kyber.Point { return hp(ci.G2(), ci.G2().Point()).(h2).Hash2(m, d) }},
-		{eg{"gnark.G1", gn.G1(), false, "", 32, nil, nil}, true, func(m, d []byte) kyber.Point { return hp(gn.G1(), gn.G1().Point()).(h2).Hash2(m, d) }},
-		{eg{"gnark.G2", gn.G2(), false, "", 32, nil, nil}, true, func(m, d []byte) kyber.Point { return hp(gn.G2(), gn.G2().Point()).(h2).Hash2(m, d) }},
+		{eg{"circl.G1", ci.G1(), false, "", 32, nil, nil, false}, true, func(m, d []byte) kyber.Point { return hp(ci.G1(), ci.G1().Point()).(h2).Hash2(m, d) }},
+		{eg{"circl.G2", ci.G2(), false, "", 32, nil, nil, false}, true, func(m, d []byte) kyber.Point { return hp(ci.G2(), ci.G2().Point()).(h2).Hash2(m, d) }},
+		{eg{"gnark.G1", gn.G1(), false, "", 32, nil, nil, false}, true, func(m, d []byte) kyber.Point { return hp(gn.G1(), gn.G1().Point()).(h2).Hash2(m, d) }},
+		{eg{"gnark.G2", gn.G2(), false, "", 32, nil, nil, false}, true, func(m, d []byte) kyber.Point { return hp(gn.G2(), gn.G2().Point()).(h2).Hash2(m, d) }},
 	}
 	return hs
 }
@@ -800,14 +850,16 @@ func (c *ctx) hashOracle(r *vh.Rng, h hgroup, n int) {
 			rep.Fail(h.name+".Hash/nondeterministic", "the same message and tag gave two points", in)
 		}
 		// hashing into a receiver that already holds a point gives the same result
-		hashRecv = 1 + i%(len(recvKinds)-1)
-		var b3 []byte
-		pan3, m3 := vh.Try(func() { b3 = enc(h.hash(msg, dst)) })
-		rep.Dist("receiver:hash-into-" + recvKinds[hashRecv])
-		hashRecv = 0
-		if pan3 || !bytes.Equal(b, b3) {
-			in["receiver"], in["other_point"], in["panic"] = recvKinds[1+i%(len(recvKinds)-1)], vh.Hex(b3), m3
-			rep.Fail(h.name+".Hash/depends-on-receiver", "hashing into a used receiver gives another point", in)
+		for _, k := range []int{1 + i%(len(recvKinds)-1), len(recvKinds) + i%len(hashKinds)} {
+			hashRecv = k
+			var b3 []byte
+			pan3, m3 := vh.Try(func() { b3 = enc(h.hash(msg, dst)) })
+			rep.Dist("receiver:hash-into-" + hashKindName(k))
+			hashRecv = 0
+			if pan3 || !bytes.Equal(b, b3) {
+				in["receiver"], in["other_point"], in["panic"] = hashKindName(k), vh.Hex(b3), m3
+				rep.Fail(h.name+".Hash/depends-on-receiver", "hashing into a used receiver differs from hashing into a fresh point of the same suite", in)
+			}
 		}
 		rep.Dist("config:hash:" + h.name)
 		// different message (and, where the tag is an input, different tag) => different point
@@ -980,7 +1032,7 @@ func main() {
 	}
 	dsaR4, dsaR6, dsaR30, dsa160 := mkDSA(4004, 64, 4), mkDSA(6006, 72, 6), mkDSA(3030, 80, 30), mkDSA(1604, 160, 4)
 	qrEg := func(name string, g *p256.ResidueGroup) eg {
-		return eg{name, g, false, "qr", g.PointLen(), g.P, g.Q}
+		return eg{name, g, false, "qr", g.PointLen(), g.P, g.Q, false}
 	}
 	embedGroups := []struct {
 		impls  []eg
@@ -989,10 +1041,10 @@ func main() {
 		sparse bool // quick tier: only the edge lengths
 		bnd    []*big.Int
 	}{
-		{[]eg{{"ed25519", edS, false, "ed", 32, nil, nil}, {"ed25519+vartime", edS, true, "ed", 32, nil, nil},
-			{"ed25519vartime-pkg", edwards25519vartime.NewBlakeSHA256Ed25519(false), false, "ed", 32, nil, nil}}, "CEdEmbed #", 2, false, []*big.Int{edP, edL}},
-		{[]eg{{"p256", p256.NewBlakeSHA256P256(), false, "p256", 33, nil, nil}}, "CWEmbed # 0", 20, false, []*big.Int{p256P, p256N}},
-		{[]eg{{"bn256.G1", bn256.NewSuite().G1(), false, "bn256", 32, nil, nil}}, "CWEmbed # 1", 20, false, []*big.Int{bn256P, bn256N}},
+		{[]eg{{"ed25519", edS, false, "ed", 32, nil, nil, false}, {"ed25519+vartime", edS, true, "ed", 32, nil, nil, false},
+			{"ed25519vartime-pkg", edwards25519vartime.NewBlakeSHA256Ed25519(false), false, "ed", 32, nil, nil, false}}, "CEdEmbed #", 2, false, []*big.Int{edP, edL}},
+		{[]eg{{"p256", p256.NewBlakeSHA256P256(), false, "p256", 33, nil, nil, false}}, "CWEmbed # 0", 20, false, []*big.Int{p256P, p256N}},
+		{[]eg{{"bn256.G1", bn256.NewSuite().G1(), false, "bn256", 32, nil, nil, false}}, "CWEmbed # 1", 20, false, []*big.Int{bn256P, bn256N}},
 		{[]eg{qrEg("qr512", &qr.ResidueGroup)}, "CQrEmbed # " + vh.CoqZ(qr.P) + " " + vh.CoqZ(qr.Q), 5, true, []*big.Int{qr.P, qr.Q}},
 		{[]eg{qrEg("qr128", qr128)}, "CQrEmbed # " + vh.CoqZ(qr128.P) + " " + vh.CoqZ(qr128.Q), 25, false, []*big.Int{qr128.P, qr128.Q}},
 		{[]eg{qrEg("qr125", qr125)}, "CQrEmbed # " + vh.CoqZ(qr125.P) + " " + vh.CoqZ(qr125.Q), 25, false, []*big.Int{qr125.P, qr125.Q}},
@@ -1234,6 +1286,26 @@ func main() {
 		}
 	}
 
+	// one large residue group (EmbedLen >= 256 needs a modulus of 2072+ bits): RFC 3526 group 15,
+	// p = 2q + 1, g = 4. Oracles only (a 3072-bit modular exponentiation is out of reach of the
+	// model's evaluation budget); a handful of payload lengths around 256 and EmbedLen
+	{
+		pp, _ := new(big.Int).SetString(rfc3526Group15, 16)
+		g := new(p256.ResidueGroup) // fields set directly: SetParams would spend seconds on 64-round primality tests
+		g.P, g.Q, g.R, g.G = pp, new(big.Int).Rsh(pp, 1), big.NewInt(2), big.NewInt(4)
+		e := eg{"residue.modp3072", g, false, "qr", g.PointLen(), g.P, g.Q, true}
+		el := e.point().EmbedLen()
+		for _, L := range []int{255, 256, 257, 300, el - 1, el, el + 1, 65536 + 3, -1} {
+			r := rng.Fork()
+			var data []byte
+			if L >= 0 {
+				data = r.Bytes(L)
+			}
+			c.embedOracle(e, data, false, mkTape(r, "xof", e.cand), "xof")
+			rep.Count(fmt.Sprintf("embed/%s/%d/%s", e.name, L, vh.Hex(r.Bytes(8))), true)
+		}
+	}
+
 	// Data() of decoded Ed25519 points with a chosen length byte
 	{
 		var items []string
@@ -1286,7 +1358,7 @@ func main() {
 	}
 
 	// G1 Pick of bn256 / bn254 against the model: random scalar times the base point
-	for cv, e := range map[int]eg{1: {"bn256.G1", bn256.NewSuite().G1(), false, "bn256", 32, nil, nil}, 2: {"bn254.G1", bn254.NewSuite().G1(), false, "", 32, nil, nil}} {
+	for cv, e := range map[int]eg{1: {"bn256.G1", bn256.NewSuite().G1(), false, "bn256", 32, nil, nil, false}, 2: {"bn254.G1", bn254.NewSuite().G1(), false, "", 32, nil, nil, false}} {
 		var items []string
 		q := order(e.name, e.g)
 		bl := boundaryInts(32, []*big.Int{q})
@@ -1312,7 +1384,7 @@ func main() {
 
 	// ------------------------------------------------------------ Pick on every group
 	for _, in := range grpprog.Groups() {
-		e := eg{in.Name, in.G, in.VarTime, "", 32, nil, nil}
+		e := eg{in.Name, in.G, in.VarTime, "", 32, nil, nil, false}
 		switch {
 		case strings.HasPrefix(in.Name, "ed25519"):
 			e.model = "ed"
@@ -1513,7 +1585,7 @@ func protocolBases(rng *vh.Rng, rep *vh.Report, mult int) {
 		{"bn256.G1", bn256.NewSuiteG1()},
 	}
 	for _, su := range suites {
-		e := eg{su.name, su.s, false, "", 32, nil, nil}
+		e := eg{su.name, su.s, false, "", 32, nil, nil, false}
 		seen := map[string]string{}
 		for i := 0; i < 3*mult; i++ {
 			r := rng.Fork()
